@@ -10,8 +10,9 @@ EXPLANATION = (
     "of the *configured* partition field of the event being processed — or whole-map (iter, values, values_mut, retain, "
     "clear, drain, len, keys), which is allowed only in the functions listed with a reason (checkpoint / restore / flush / "
     "statistics / time-driven expiry / global negation). Anything else lets one partition's events touch another's state."
+    " The key function itself applies no lossy numeric conversion or case / whitespace normaliser."
 )
-DECIDED = ["every keyed access uses the engine's key function on the configured field", "cross-partition (whole-map) accesses occur only in listed time-driven / global functions"]
+DECIDED = ["every keyed access uses the engine's key function on the configured field", "cross-partition (whole-map) accesses occur only in listed time-driven / global functions", "Value::to_partition_key does not merge distinct key values of one type"]
 NOT_DECIDED = ["key normalisation collisions of to_partition_key (excluded by the quantifier)", "aggregate arithmetic"]
 
 R = "varpulis_runtime::"
